@@ -300,9 +300,20 @@ func Compare(kinds string, got string) (kind string, txKind byte, detail string)
 		wX, gX := strings.Contains(w, " X"), strings.Contains(g, " X")
 		wOK, gOK := strings.HasSuffix(w, ":ok"), strings.HasSuffix(g, ":ok")
 		gEnd := strings.Contains(g, " E:")
+		endSlot := func(x string) string {
+			if i := strings.Index(x, " E:"); i >= 0 {
+				if f := strings.Split(x[i+3:], ":"); len(f) > 0 {
+					return f[0]
+				}
+			}
+			return ""
+		}
 		switch {
 		case g == "" || !gEnd:
 			kind = "callbacks-missing"
+		case endSlot(g) != endSlot(w) && strings.Replace(g, " E:"+endSlot(g)+":", " E:"+endSlot(w)+":", 1) == w:
+			// everything equal except the raw bytes handed to the end callback
+			kind = "end-callback-raw-bytes-differ"
 		case strings.Contains(g, "(tx"):
 			kind = "exec-with-wrong-transaction-object"
 		case gX && !wX:
